@@ -10,7 +10,16 @@ import math
 import random
 import sys
 
+import os
+
 import numpy as np
+
+sys.path.insert(0, os.path.dirname(os.path.dirname(os.path.abspath(__file__))))
+try:  # quri_parts.chem has no __init__.py in /repo: make sure the repo copy wins (see repo_imports.py)
+    from harness import repo_imports as _ri
+    _ri.force_repo_packages()
+except Exception as _e:  # noqa: BLE001
+    print(f"repo_imports failed: {_e}", file=sys.stderr)
 
 I2 = np.eye(2, dtype=complex)
 PX = np.array([[0, 1], [1, 0]], dtype=complex)
@@ -214,6 +223,10 @@ class Result:
             self.failures.append({"key": key, "desc": desc, "input": inp})
 
     def emit(self):
+        try:
+            _ri.assert_all_repo()
+        except Exception as e:  # noqa: BLE001
+            self.broken.append({"what": "harness imported quri_parts from outside /repo", "detail": str(e)})
         print(json.dumps({
             "evaluations": self.evaluations, "distinct_nontrivial": len(self.nontrivial),
             "samples": self.samples, "failures": self.failures, "broken": self.broken,
